@@ -24,6 +24,7 @@ import (
 type c13Cfg struct {
 	Finalizing bool
 	Strict     bool
+	Cluster    bool // the target is a cluster-scoped object (the decorator has a second resource rule for that kind)
 }
 
 type c13Case struct {
@@ -57,9 +58,13 @@ func c13Run(c c13Case) []mc.Finding {
 	bad := func(key, format string, a ...interface{}) {
 		f = append(f, mc.Finding{Key: "C13:" + key, Msg: fmt.Sprintf("decorator %+v %s status=%d body=%s: ", c.Cfg, c.What, c.Status, c.Body) + fmt.Sprintf(format, a...)})
 	}
-	w := newDWorld(dcOpt{parents: []*sim.Kind{kit.Thing}, attachments: []*sim.Kind{kit.Leaf}, strict: c.Cfg.Strict, finalize: c.Cfg.Finalizing,
+	pk, pns := kit.Thing, "n1"
+	if c.Cfg.Cluster {
+		pk, pns = kit.CThing, ""
+	}
+	w := newDWorld(dcOpt{parents: []*sim.Kind{kit.Thing, kit.CThing}, attachments: []*sim.Kind{kit.Leaf}, strict: c.Cfg.Strict, finalize: c.Cfg.Finalizing,
 		methods: map[string]v1alpha1.ChildUpdateMethod{"leafs": v1alpha1.ChildUpdateInPlace}}, false)
-	target := kit.Obj(kit.Thing, "n1", "p")
+	target := kit.Obj(pk, pns, "p")
 	kit.Field(target, "puid", "metadata", "uid")
 	if c.Cfg.Finalizing {
 		kit.Finalizers(target, "metacontroller.io/decoratorcontroller-dc")
@@ -88,7 +93,7 @@ func c13Run(c c13Case) []mc.Finding {
 	}
 	w.DeliverAll()
 	if c.Cfg.Finalizing {
-		w.Sim.Edit(kit.Thing, "n1", "p", func(o map[string]interface{}) { kit.Deleting(o) })
+		w.Sim.Edit(pk, pns, "p", func(o map[string]interface{}) { kit.Deleting(o) })
 		w.DeliverAll()
 	}
 	w.Sim.ResetLog()
@@ -221,8 +226,9 @@ func TestVerifC13(t *testing.T) {
 		}
 	}
 	for fin := 0; fin < 2; fin++ {
-		for st := 0; st < 2; st++ {
-			cfg := c13Cfg{Finalizing: fin == 1, Strict: st == 1}
+		for st := 0; st < 3; st++ {
+			// st 2: loose mode, cluster-scoped target
+			cfg := c13Cfg{Finalizing: fin == 1, Strict: st == 1, Cluster: st == 2}
 			valid := c13Valid()
 			what, bodies := c13Bodies(valid, mc.Thorough() && fin == 0 && st == 0)
 			for i := range bodies {
